@@ -170,7 +170,7 @@ class C13:
         samples.append({"ill_kinded_example": cat[0][0], "program": cat[0][2]})
         # 2. converting construction
         conv, n_pairs = conversion_tu(seed)
-        ok, log = e3.syntax_only(conv, ["-mbmi2"] if zoo.cpu_has_bmi2() else [])
+        ok, log = e3.syntax_only(conv, zoo.isa_flags())
         programs += 1
         if not ok:
             report("conv", "converting construction between compatible stacks", conv, True, log)
@@ -213,7 +213,7 @@ class C13:
                     types.append(t)
                     got += 1
             batches = [types[i:i + 10] for i in range(0, len(types), 10)]
-            fl = ["-mbmi2"] if zoo.cpu_has_bmi2() else []
+            fl = zoo.isa_flags()
             results = core.parallel(lambda b: e3.syntax_only(api_tu(b), fl), batches)
             programs += len(batches)
             enumerated = len(types)
